@@ -16,11 +16,12 @@ def mc(tier):
             raise vlib.Infra("Api.tla %s: %s" % (cfg, r.violation or r.error))
         tot["states"] += r.distinct; tot["transitions"] += r.generated
         tot["configs"].append({"cfg": cfg, "distinct": r.distinct, "generated": r.generated})
-    for cfg, inv in (("MC_Api_found.cfg", ("RespCommitted",)), ("MC_Api_unlocked.cfg", ("NoTornCache",)), ("MC_Api_failpub.cfg", ("InOrder", "RespCommitted"))):
+    for cfg, inv in (("MC_Api_found.cfg", ("RespCommitted",)), ("MC_Api_unlocked.cfg", ("NoTornCache",)), ("MC_Api_failpub.cfg", ("InOrder", "RespCommitted")),
+                     ("MC_Api_failread.cfg", ("NoTornCache", "LedgerUnaffected"))):
         r = vlib.tlc("Api", cfg=cfg, workers=4, timeout=600, deadlock=False)
         if r.violation not in inv:
             raise vlib.Infra("vacuity guard: %s should violate %s, got %r" % (cfg, inv, r.violation))
-    tot["deviation_counterexamples"] = 3
+    tot["deviation_counterexamples"] = 4
     return tot
 
 
@@ -124,7 +125,7 @@ def main():
             "evaluations": exps, "distinct_nontrivial": exps,
             "rule": "Api.tla (TLC): sync loop x 2 readers interleaved at the critical sections of the cache function and of the height publication; on the "
                     "real daemon two schedules taken from TLC's counterexamples are replayed deterministically with gates at seeded heights (a reader asks "
-                    "for the synced height between the bump and COMMIT, and right after a COMMIT that failed; a rich-list reader is suspended inside the cache function while the sync goroutine "
+                    "for the synced height between the bump and COMMIT, and right after a COMMIT that failed; a rich-list reader that is the first to ask for the newest averages has its client hang up, resp. its read of pn_rate fail, while it is inside the cache function; a rich-list reader is suspended inside the cache function while the sync goroutine "
                     "applies the next block), and every read method is hammered by concurrent clients during a full sync under the race detector; final "
                     "ledgers are compared with a run without readers; a schedule the code makes infeasible (lock) is recorded as such",
             "samples": samples[:4], "infeasible_schedules": infeasible, "race_reports": sum(n for (_, n, _, _) in races), "mc": mcres,
